@@ -53,6 +53,10 @@ func gen(t *rapid.T) Case {
 	o := progen.Opts{MaxPkgs: 2, MaxIfaces: 3, Avoid: map[string]bool{"srcpkg:mock": true, "pkg:mockp": true, "tparamname:mock": true, "tparamname:t": true},
 		MethodFilter: func(n string) bool { return testifyAPI[n] }}
 	mod := progen.Gen(t, o)
+	if rapid.Bool().Draw(t, "template-locals") {
+		// parameters named like the template's own locals (ret, _mock, args, ...)
+		progen.HostileLocals(t, &mod, "testify")
+	}
 	r.GenIfaceData(t, &mod)
 	replace := rapid.IntRange(0, 3).Draw(t, "replace-type") == 0
 	if replace {
